@@ -644,6 +644,9 @@ impl Kernel {
                 self.clock_ns += 10_000;
                 if let Some(t) = self.threads.iter().find(|t| t.tid == tid && t.life == Life::Alive) {
                     if t.blocked_until_ns > self.clock_ns {
+                        if t.blocked_until_ns > self.sched.max_ns {
+                            self.wait_on_sleeper = Some(tid);
+                        }
                         self.clock_ns = t.blocked_until_ns;
                     }
                 }
